@@ -1,6 +1,5 @@
 package g4
 
-
 func (g *Grammar) minLens() map[string]int {
 	const inf = 1 << 30
 	ml := map[string]int{}
